@@ -208,7 +208,7 @@ pub fn replay(case: &Value, _kf: &KnownFindings) -> Result<(), Failure> {
 
 pub fn run(ctx: &mut Ctx) {
     let thorough = ctx.tier == Tier::Thorough;
-    ctx.rule = format!("(a) counter arithmetic through the hook: all 65536 wire values x last in {{None}} + every value within +-70000 of {{0, 0xFFFF, 0x10000, 2^31-1, 2^31, 0xFFFF0000, 2^32-1}} ({}), plus random last values, against the rule 'unique N = wire (mod 2^16) with last < N <= last+16384'; (b) proptest device histories: ABP sessions whose accepted counter starts at None/0/0xFFFC..0x10002/0x1FFFF/2^32-16386/2^32-16..2^32-2/random, 1..10 transactions with deliveries in RX1/RX2/Class C gaps/idle drawn from fresh (delta 1,2,16383,16384), replayed, reordered, far-future (16385,65535,65536,65537), wrong-epoch MIC, bit-flipped, foreign, oversize (M+5+1..) and exactly-fitting (M+5) frames; nb, async, async+ClassC; 9 regions. (c) authentic frames of N-2, N-1 and N bytes delivered to devices whose radio buffer holds N = 64 / 255 bytes (RX1, RX2, Class C gap and idle listening; default and highest uplink data rate; 9 regions). Oracle: reference codec + the statement's rule decide accept/reject per delivered frame; device's remembered counter, responses and delivered payloads must match. Non-trivial: (a) pairs with wire within +-16400 of last mod 2^16 or crossing an epoch; (b) histories with >= 1 accepted frame and >= 1 frame rejected for freshness with a valid MIC", if thorough { "every value" } else { "stride 257" });
+    ctx.rule = format!("(a) counter arithmetic through the hook: all 65536 wire values x last in {{None}} + every value within +-70000 of {{0, 0xFFFF, 0x10000, 2^31-1, 2^31, 0xFFFF0000, 2^32-1}} ({}), plus random last values, against the rule 'unique N = wire (mod 2^16) with last < N <= last+16384'; (b) proptest device histories: ABP sessions whose accepted counter starts at None/0/0xFFFC..0x10002/0x1FFFF/2^32-16386/2^32-16..2^32-2/random, 1..10 transactions with deliveries in RX1/RX2/Class C gaps/idle drawn from fresh (delta 1,2,16383,16384), replayed, reordered, far-future (16385,65535,65536,65537), wrong-epoch MIC, bit-flipped, foreign, oversize (M+5+1..) and exactly-fitting (M+5) frames; nb, async, async+ClassC; 9 regions. (d) an authentic frame in RX1/RX2 for every RX1DROffset 0..7 x every uplink data rate x 9 regions x nb/async (windows whose nominal data rate the region does not define included); (c) authentic frames of N-2, N-1 and N bytes delivered to devices whose radio buffer holds N = 64 / 255 bytes (RX1, RX2, Class C gap and idle listening; default and highest uplink data rate; 9 regions). Oracle: reference codec + the statement's rule decide accept/reject per delivered frame; device's remembered counter, responses and delivered payloads must match. Non-trivial: (a) pairs with wire within +-16400 of last mod 2^16 or crossing an epoch; (b) histories with >= 1 accepted frame and >= 1 frame rejected for freshness with a valid MIC", if thorough { "every value" } else { "stride 257" });
     ctx.exhaustive = thorough;
     ctx.assumptions = vec![
         "maximum frame size per data rate from RP002-1.0.3 (refregion); cells that differ between RP002 revisions are not judged".into(),
@@ -304,6 +304,51 @@ pub fn run(ctx: &mut Ctx) {
                                         Err(f) => st.fail(f),
                                     },
                                 }
+                            }
+                        }
+                    }
+                }
+            }
+        }
+    });
+    // (d) an authentic, fresh frame in every receive window the regional parameters can produce:
+    // every RX1DROffset 0..7 (negotiated by RXParamSetupReq; offsets the region does not define are
+    // refused and change nothing) x every uplink data rate x RX1/RX2, incl. the windows whose nominal
+    // data rate the region does not define (the device falls back to another one)
+    ctx.parallel(|ti, n, st| {
+        let mut k = 0usize;
+        for region in REGIONS {
+            let reg = Reg::from_name(region.name()).unwrap();
+            let (f2, dr2) = reg.rx2_default();
+            let drs: Vec<u8> = (0..16u8).filter(|d| reg.is_uplink_dr(*d)).collect();
+            for front in [FrontKind::Async, FrontKind::Nb] {
+                for off in 0..8u8 {
+                    for d in &drs {
+                        for in_rx2 in [false, true] {
+                            k += 1;
+                            if k % n != ti {
+                                continue;
+                            }
+                            let frame = Recipe::Auth { delta: 1, confirmed: false, port: Some(5), payload_len: 3, fopts: vec![], frm_cmds: vec![], ack: false, fpending: false };
+                            let steps = vec![
+                                Step::Send { port: 9, len: 1, confirmed: false, rx: RxPlan::rx1(Recipe::auth_cmds(1, vec![Cmd::RxParamSetupReq { dl_settings: (off << 4) | dr2, freq: f2 }])) },
+                                Step::SetDr(*d),
+                                Step::Send { port: 9, len: 1, confirmed: false, rx: if in_rx2 { RxPlan::rx2(frame) } else { RxPlan::rx1(frame) } },
+                                Step::Send { port: 9, len: 1, confirmed: false, rx: RxPlan::default() },
+                            ];
+                            let h = History { cfg: DevCfg { region, join_bias: None, front, board: (14, 0) }, activation: Activation::Abp { fcnt_up: 5, fcnt_down: None }, board: Board::default(), rng_script: vec![], rng_seed: seed ^ 0xD ^ k as u64, steps };
+                            st.eval();
+                            st.class("window-table");
+                            match run_history(&h) {
+                                Err(e) => st.fail(Failure::new("harness", h.json(), e)),
+                                Ok((_, recs)) => match judge(&h, &recs) {
+                                    Ok((acc, _)) => {
+                                        if acc && off > 0 {
+                                            st.nt_hash(hash_value(&h.json()));
+                                        }
+                                    }
+                                    Err(f) => st.fail(f),
+                                },
                             }
                         }
                     }
